@@ -101,7 +101,8 @@ class World:
 
     @staticmethod
     def query(n):
-        return ("", "", "?a=1;b=2", "")[(n // 2) % 4]
+        # (a query may itself hold a URL - a gateway, a "next" parameter: "://" further along is not a second scheme)
+        return ("", "?u=gemini://example.org/page", "?a=1;b=2", "", "?next=https://example.org/a?b", "")[n % 6]
 
     def url(self, node):
         s, n = node
